@@ -98,6 +98,9 @@ ob("O-C11-once", ["C11"], S, "c11_once_or_empty", "once_or_empty: Ok(Some x) -> 
 # ------------------------------------------------------------------------------------ jaq-core
 CORE = "jaq-core/src/"
 ob("O-C15-table", ["C15"], C, "c15_precedence_table", "for every pair of binary operators (| , as-binding, the assignment forms with all five arithmetic operators and //=, //, or, and, six comparisons, five arithmetic operators): precedence is order-isomorphic to the manual's table and associativity is Right exactly for |, `as $x |` and the assignments", [CORE + "load/parse.rs::BinaryOp::precedence", CORE + "load/parse.rs::BinaryOp::associativity"])
+for a in ("lll", "llr", "lrl", "lrr", "rll", "rlr", "rrl", "rrr"):
+    ob(f"O-C15-climb3-{a}", ["C15"], C, f"c15_climb3_{a}", f"prec_climb::climb (the generic engine behind Term::climb) builds exactly the tree the table implies - split at the loosest operator, rightmost among equals if left-associative, leftmost if right-associative - for every sequence of 1..3 operators over three precedence levels with associativities {a} (l = left, r = right, per level)", [CORE + "load/prec_climb.rs::climb", CORE + "load/prec_climb.rs::climb1"], label="bounded", bound="all operator sequences of length <= 3 over 3 precedence levels (every order type of 3 operators), enumerated concretely")
+    ob(f"O-C15-climb4-{a}", ["C15"], C, f"c15_climb4_{a}", f"the same for every sequence of 4 operators over three precedence levels, associativities {a}", [CORE + "load/prec_climb.rs::climb", CORE + "load/prec_climb.rs::climb1"], label="bounded", bound="all 81 operator sequences of length 4 over 3 precedence levels, enumerated concretely", tier="thorough")
 ob("O-C16-vars", ["C16", "C01"], C, "c16_var_numbering", "Compiler::var with no live local binder: the returned index selects, in the run-time list Vars::new(globals ++ imported values), the last data import of that name owned by the current module, else the last command-line variable of that name; an undefined name is reported, never mis-indexed", [CORE + "compile.rs::Compiler::var"], label="bounded", bound="2 data imports x 2 owning modules, 2 global variables, names from a 2-letter alphabet, current module 0 or 1 (all symbolic)")
 ob("O-C01-binds", ["C01"], C, "c01_binds", "binds(sig, args) pairs the i-th signature kind (variable / filter) with the i-th argument id, in order", [CORE + "compile.rs::binds"], label="bounded", bound="<= 3 arguments, kinds and ids symbolic")
 ob("O-C03-peek", ["C03"], C, "c03_next_if_one", "next_if_one returns an element only under size_hint upper bound Some(1); pulls nothing when it declines because of the hint; never pulls an element it does not return (ghost pull counter on the upstream iterator)", [CORE + "box_iter.rs::next_if_one"], label="bounded", bound="upstream streams of length <= 3, every honest size hint")
@@ -165,8 +168,8 @@ CFG = {
         },
         "C15": {
             "level": "proof",
-            "explanation": "The operator table is finite: BinaryOp::precedence / associativity are compared with the manual's table for every pair of operators (all enum payloads symbolic). Complete for the table.",
-            "not_decided": "that the precedence-climbing loop (prec_climb::climb1) builds the tree the table implies (bounded unwinding is exponential in its recursion; no inductive contract within reach of the installed tools), atoms, postfix ? vs prefix -, path suffixes, object-entry and pattern shorthands, elif / missing else, string interpolation, def f($x): parser and compiler desugaring",
+            "explanation": "The operator table is finite: BinaryOp::precedence / associativity are compared with the manual's table for every pair of operators (all enum payloads symbolic): complete. The generic precedence-climbing engine is run on every operator sequence up to length 3 (quick) / 4 (thorough) over three abstract precedence levels and all associativity assignments and compared with the tree the table implies: bounded, exhaustive within the bound. Only complete obligations are counted as proved.",
+            "not_decided": "operator sequences longer than the bound (an inductive contract on climb1 is not within reach: Verus has no Peekable / iterator support, bounded unwinding on symbolic operators is exponential), the `as $x |` special case of Term::climb (its right operand extends to the end), atoms, postfix ? vs prefix -, path suffixes, object-entry and pattern shorthands, elif / missing else, string interpolation, def f($x): parser and compiler desugaring",
         },
         "C16": {
             "level": "other",
